@@ -19,7 +19,7 @@ DROPPED = ['docstrings', '_LOGGER/logging calls', 'with lc.LogContext (transpare
 S = 'treadmill.scheduler:'
 SCHED_CORE = [S + x for x in (
     'IdentityGroup.acquire', 'IdentityGroup.release', 'IdentityGroup.adjust',
-    'Application.acquire_identity', 'Application.release_identity',
+    'Application.acquire_identity', 'Application.release_identity', 'Node.children_iter',
     'Node.increment_affinity', 'Node.decrement_affinity', 'Bucket.adjust_capacity_up', 'Bucket.adjust_capacity_down',
     'Server.check_app_lifetime', 'Server.put', 'Server.remove', 'Server.restore', 'Server.renew',
     'Server.remove_all', 'Server.set_state')]
@@ -66,6 +66,29 @@ PROPS = {
             'events that change them between cycles (server re-labelled, traits changed) are not under contract',
             'trait masks are 64-bit vectors; traits.encode never hands the invalid bit to a server (not under contract)',
             'partition root allocations carry their partition label (PartitionDict.__missing__)',
+        ],
+    },
+    'C04': {
+        'contract_modules': ['scheduler_core', 'scheduler_cell', 'scheduler_c04'],
+        'functions': SCHED_CORE + SCHED_CELL + [S + x for x in (
+            'Node.check_app_affinity_limit_up', 'Node.add_node', 'Node.remove_node', 'Node.reset_children')],
+        'replay': 'scheduler.py',
+        'assumptions': SCHED_ASSUME + [
+            'anc (a is a proper ancestor of n) is an uninterpreted relation tied to the parent field by tree_wf '
+            '(transitive closure of parent, irreflexive, ancestors are buckets, children lists agree with parent '
+            'links); tree_wf is assumed when a cycle or a tree operation starts and is not proved to be preserved '
+            'by add_node/remove_node/reset_children (their counter effects are)',
+            'limit clause: lim_ok (count <= limit at every node for every affinity) is an inductive invariant of the '
+            'placement walk and a postcondition of every pass and of Cell.schedule; it is assumed at cycle entry '
+            '(history closure) together with limits_shared: instances of one affinity declare the same limits (the '
+            'property\'s quantifier) and finite limits are whole numbers (manifest integers)',
+            'counter clause: proved in delta form - Server.put/restore add exactly one to the affinity\'s counter of '
+            'the server and every ancestor, remove/remove_all subtract exactly what leaves, add_node/remove_node/'
+            'reset_children add/subtract exactly the attached/detached subtree\'s counters, nothing else moves; '
+            'absolute exactness is proved at server level (counter == number of instances in Server.apps with that '
+            'affinity); for buckets it follows from the deltas by induction over the history, which is not machine-checked',
+            'raising the limit of an affinity while instances are placed, or re-declaring an instance\'s affinity, '
+            'is outside the property (limits are fixed per affinity name: aff_limit)',
         ],
     },
     'C05': {
